@@ -92,3 +92,31 @@ type Outer struct {
 	Base
 	Y int
 }
+
+// Node: the member Leaf holds the union only through a field JSON does not
+// carry; random data fills that field all the same, so Leaf is no way out.
+type Node interface {
+	isNode()
+}
+
+type Bin struct {
+	L, R Node
+}
+
+type Leaf struct {
+	V      int
+	Origin Node `json:"-"`
+}
+
+type Inv struct {
+	X Node
+}
+
+type Sym struct {
+	Name string
+}
+
+func (Bin) isNode()  {}
+func (Leaf) isNode() {}
+func (Inv) isNode()  {}
+func (Sym) isNode()  {}
